@@ -41,9 +41,16 @@ Proof.
            (proj1 C14_reads_and_commits_atomic) (proj2 C14_reads_and_commits_atomic)).
 Qed.
 
+(** a confirmation pops its session (exclusively, by C14_guarded_exclusive) before it commits a count or learns a compound:
+    two confirmations of one session, however they overlap, learn once *)
+Theorem C14_confirm_consumes_first : forallb (pop_before_commit false) handler_progs = true.
+Proof. vm_compute. reflexivity. Qed.
+
 (** a registered entry is never half-visible: all its conjugated forms are merged inside one dictionary section *)
 Theorem C14_entry_atomic : forallb (one_section false) task_progs = true.
 Proof. vm_compute. reflexivity. Qed.
 
 Print Assumptions C14_guarded_exclusive.
 Print Assumptions C14_read_is_snapshot.
+
+Print Assumptions C14_confirm_consumes_first.
